@@ -171,6 +171,11 @@ impl Prop for C11 {
                 ensure!(strip(a.to_string()) == strip(b.to_string()), "dhw_error", "DHW fraction error changes with the scale: `{}` vs `{}`", a, b);
                 ctx.label("dhw_error");
             }
+            // a demand that is zero within the noise rule (below 1e-3 of the energy scale: e.g. DEMANDA steps
+            // of opposite signs that cancel to 1e-8 kWh) may be called "zero" at one scale and not at another
+            (Ok(_), Err(b)) | (Err(b), Ok(_)) if b.to_string().contains("nula") && (e0.balance.needs.ACS.unwrap_or(0.0).abs() as f64) < 1e-3 * sc0.tot_energy => {
+                ctx.skip("dhw_den_noise");
+            }
             (Ok(a), Err(b)) => fail!("dhw_fraction", "DHW renewable fraction {} for the base building but error `{}` after scaling by {}", a, b, cf),
             (Err(a), Ok(b)) => fail!("dhw_fraction", "DHW renewable fraction error `{}` for the base building but {} after scaling by {}", a, b, cf),
         }
